@@ -162,6 +162,33 @@ func e2Digest(t *e2Trace) string {
 }
 
 // e2RunTrace runs one free-form trace (no restarts) and judges it against C08 and C12(a).
+// e2RunTraceWorld runs case i like e2RunTrace and returns the finished world; the trace is
+// only used for the non-triviality digest.
+func e2RunTraceWorld(r *verifkit.Run, prop string, i int, agg *e2Agg) *e2World {
+	rng := r.CaseRNG(i)
+	cfg := e2DrawCfg(rng, "C08")
+	caseID := fmt.Sprintf("%s/case-%d", prop, i)
+	r.BeginCase(caseID)
+	w := newE2World(r, rng, caseID, cfg)
+	nEv := 15 + rng.IntN(70)
+	if w.start() {
+		for k := 0; k < nEv && w.step(); k++ {
+		}
+		w.quiesce()
+	}
+	w.finish()
+	t := w.trace()
+	agg.merge(w, t)
+	r.Eval(1)
+	for _, e := range t.evs {
+		if e.K == e2kStratCall && e.Sub != "enter" {
+			r.Nontrivial(e2Digest(t))
+			break
+		}
+	}
+	return w
+}
+
 func e2RunTrace(r *verifkit.Run, prop string, i int, agg *e2Agg, prefix string) {
 	rng := r.CaseRNG(i)
 	cfg := e2DrawCfg(rng, prop)
